@@ -113,7 +113,7 @@ def _r6(ctx):
                         if subs == {tgt_txt} and not calls and len(t.body) == 1:
                             absent = True
             ok = (f.kind == "augstore" and getattr(f, "op", None) == "Add") or (f.kind == "store" and absent) or readadd
-            if not ok and f.kind == "store" and any("element_count" in c or c.startswith("('except'") for c, _ in g):
+            if not ok and f.kind == "store" and any(("element_count" in c and not re.fullmatch(r"\w+(notin|in)self\.element_count(\.keys\(\))?", c)) or c.startswith("('except'") for c, _ in g):
                 # guarded by a test of the table (or an exception) this rule does not read: not evidence of an overwrite
                 ctx.unrec("R6", f"element_count:{f.kind}", (SPECIES, f.line), f"cannot tell whether the entry exists when it is assigned: guarded by {[c for c, _ in g][-2:]}")
                 continue
